@@ -8,8 +8,15 @@ PROP = Prop(
          "counts and partition racks). Small-scope enumeration (<=3 members x <=2 topics x <=3 partitions, every subscription pattern, "
          "every claimant set per partition incl. conflicting claims, stale-generation patterns; trimmed in quick), random structured groups "
          "(previous assignment perturbed: new members, stale generations, conflicting claims, unknown/shrunk topics, unsubscribed owners, "
-         "duplicate ids/topics), groups up to 200 members x 50 topics. non-trivial = at least 2 members and at least 2 partitions to "
-         "assign. distinct = distinct op lines.",
+         "duplicate ids/topics), groups up to 200 members x 50 topics. For sticky / cooperative-sticky additionally the engine's complex path "
+         "(steal-graph search): 3-8 members with different, overlapping subscriptions over 4-12 topics of 1-6 partitions, prior ownership skewed "
+         "(one or two members own nearly all they can take, some own nothing), then perturbed (stale / duplicate claims, dropped topics, members "
+         "left / joined); the C26 generator's sparse / ring shapes; and a mutation stream (1-3 rounds of small edits of subscriptions, ownership, "
+         "partition counts, membership, member naming, generations) over known-hard seeds (the steal-back input of "
+         "seeded/C25-steal-back-keeps-old-edge and 12 more, bal/seeds.go, also run from corpus/C25) and over fresh groups. The engine numbers "
+         "topics in Go map iteration order, so each such input is balanced 8-16 times by one op (`sticky@R` / `coop@R`; coop: two engine runs "
+         "per repetition) and the Spec is evaluated on every distinct output (#stat sticky_engine_runs counts the runs). "
+         "non-trivial = at least 2 members and at least 2 partitions to assign. distinct = distinct op lines.",
     trusted_base=["hand-written models of range / round-robin Balance, AdjustCooperative and kfake computeTargetAssignment+assignUniform+assignRange, "
                   "tied to the code by exact differential runs through the public balancer interfaces and a verif hook",
                   "the sticky engine (pkg/kgo/internal/sticky) is NOT modelled or proved: ValidPlan is evaluated on its real output for every generated case",
@@ -25,10 +32,13 @@ MANIFEST = {
             "assigned exactly once, to a subscriber, and nothing else; AdjustCooperative applied to any valid plan leaves a partition unassigned only when "
             "a current owner is losing it. The models are tied to the code by exact differential runs (public GroupBalancer/ConsumerBalancer interfaces; "
             "kfake via a verif hook). Sticky and cooperative-sticky validity itself is checked on the real engine's output for every generated input "
-            "(subscriptions listing a topic twice included), not proved.",
+            "(subscriptions listing a topic twice included), not proved; inputs on the engine's complex path (uneven subscriptions, skewed priors, "
+            "mutations of known-hard inputs) are balanced 8-16 times each because the engine's outcome depends on Go map iteration order.",
     "note": "Trusted: Lean kernel; the hand-written models (validated differentially, not verified against the Go source); generators. "
             "Not proved: internal/sticky. Two defects found by this check were repaired in /repo (31831e3 kfake assignUniform double-assigned on conflicting "
             "prior targets; 67aaac1 a topic listed twice in a subscription made sticky assign to a non-subscriber); their witnesses run first from "
-            "corpus/C25 and their stable keys (kfake-uniform-conflicting-priors, sticky-duplicate-subscription) are kept in the driver.",
+            "corpus/C25 and their stable keys (kfake-uniform-conflicting-priors, sticky-duplicate-subscription) are kept in the driver. "
+            "A sticky-engine defect that needs a rare search order shows only with the probability the generated inputs reach it "
+            "(seeded/C25-steal-back-keeps-old-edge: about 550 failing evaluations per quick run, about 55 of them outside the seed-based stream).",
     "technique": "Lean 4 proof (induction over members/topics/partitions) with differential correspondence and output-checked Spec for the unmodelled sticky engine",
 }
